@@ -52,7 +52,8 @@ class G:
         k = self.r.choice(kinds)
         if k in ("bc", "res", "ins", "mut", "rem", "anyev"): return "%s:%d" % (k, self.ty())
         if k == "dsp": return "dsp:%s" % self.anyref()
-        return "%s:%s:%d" % (k, self.eref(), self.ty())
+        # now and then the target of an entity-scoped trigger is a system entity
+        return "%s:%s:%d" % (k, self.eref() if self.r.random() < 0.9 else self.sref(), self.ty())
     def trigs(self, lo=0, hi=3, kinds=None):
         n = self.r.randint(lo, hi)
         if self.r.random() < 0.08: n = 0
@@ -127,7 +128,7 @@ class G:
             if k == "wradd": return "wradd %d %s" % (r.randrange(self.n_wr), self.trigs(1, 3))
             if k == "wrremove": return "wrremove %d %s" % (r.randrange(self.n_wr), self.trigs(1, 3))
             if k == "wrrun": return "wrrun %d" % r.randrange(self.n_wr)
-            if k == "ewradd": return "ewradd %d %s %d" % (r.randrange(self.n_ewr), self.eref(), r.randrange(5))
+            if k == "ewradd": return "%s %d %s %d" % ("ewraddnow" if in_body and r.random() < 0.5 else "ewradd", r.randrange(self.n_ewr), self.eref(), r.randrange(5))
             wr = r.randrange(self.n_ewr)
             e = self.eref()
             kinds = ["emut:%s:0", "eev:%s:0"] if wr == 0 else ["eins:%s:1", "erem:%s:1", "eev:%s:1"]
@@ -317,7 +318,21 @@ def gen_sharedkey(rng):
         if nS and rng.random() < 0.2:
             setup.append("with %s s%d %s" % (rng.choice("pr"), rng.randrange(nS), key_str(*rng.choice(keys)))); 
             if setup[-1].split()[1] == "r": nT += 1
+    # a system that listens to entity-scoped triggers on its own system entity (seeded S06): spawned bare, the triggers come
+    # in a later batch through `with`, so the handles stored on its own entity are the only ones it has
+    selfwatch = None
+    if rng.random() < 0.25:
+        setup.append("spawnsys %d" % rng.randrange(g.ndefs)); selfwatch = nS; nS += 1
     out.append("top acts %d" % len(setup)); out += setup
+    if selfwatch is not None:
+        kind = rng.choice(["eev", "eev", "emut", "eins"]); ty = rng.randrange(NTY); m = rng.choice("ccr")
+        sc = ["with %s s%d %s:s%d:%d" % (m, selfwatch, kind, selfwatch, ty)]
+        if m == "r": nT += 1
+        if kind == "emut": sc.insert(0, "insert s%d %d 1" % (selfwatch, ty))
+        keys.append((kind, "s%d" % selfwatch, ty))
+        out.append("top acts %d" % len(sc)); out += sc
+        if rng.random() < 0.5: out.append("top gc")
+        out += ["top acts 1", TRIGGER_ACT[kind](g, "s%d" % selfwatch, ty)]
     for _ in range(rng.randint(3, 8)):
         sc = []
         for _ in range(rng.randint(1, 3)):
@@ -1037,7 +1052,14 @@ def gen_ewr(rng):
             for _ in range(rng.randint(0, 2)):
                 x = rng.random(); e = "e%d" % rng.randrange(nE)
                 if x < 0.5: sc.append(fire(e))
-                elif x < 0.65: sc.append("ewradd %d %s %d" % (rng.randrange(g.n_ewr), e, rng.randrange(9)))
+                elif x < 0.65:
+                    # half of the time `EntityReactor::add` called by the body itself (`ewraddnow`), and then often right
+                    # behind a queued despawn of that entity: alive at the call, dead when the queued insertion is applied
+                    # (seeded S07)
+                    if rng.random() < 0.5:
+                        if rng.random() < 0.5: sc.append("despawn %s" % e)
+                        sc.append("ewraddnow %d %s %d" % (rng.randrange(g.n_ewr), e, rng.randrange(9)))
+                    else: sc.append("ewradd %d %s %d" % (rng.randrange(g.n_ewr), e, rng.randrange(9)))
                 elif x < 0.8: sc.append("ewrremove %d %s" % ((lambda w: (w, " ".join(ewr_trigs(w, e))))(rng.randrange(g.n_ewr))))
                 elif x < 0.9 and g.n_wr: sc.append("wrrun %d" % rng.randrange(g.n_wr))
                 else: sc.append("despawn %s" % e)
